@@ -11,11 +11,16 @@ R4 stamping and copying: add_graph stamps GraphID on every node after the NodeID
    that id in the store itself; extract_graph copies edge and node data for every selected node
 R5 the JSON writer/reader are the matched networkx pair with the same non-default keywords
 R6 identity stamping at creation: every node insert passes Class/GraphID/NodeID, every edge insert passes Class
+R7 every constant the library itself stores in a JSON-typed property (e.g. '' after unmerge) and the Neo4j unset sentinel are
+   skipped by _validate_json_property (its guard is partially evaluated on the constant) or parse as JSON
 """
 import ast
 
-from ..core import AnalysisError, Unfoldable, norm, loc, walk_no_nested, attr_chain, call_name, kwarg
+from ..core import AnalysisError, Unfoldable, norm, loc, walk_no_nested, attr_chain, call_name, kwarg, receiver_name, func_params
+from ..normalize import inline, local_env, expand, canon, ctext, conjuncts, negate, _enclosing, eval_test, Unknown
+from ..cfg import CFG
 from .. import nxgraph as nxg
+from .. import flow
 
 NXI = 'fim.graph.networkx_property_graph:NetworkXGraphImporter'
 GML = 'fim.graph.graph_util:GraphML'
@@ -38,6 +43,7 @@ def run(prog, rep):
     rep.rule('R4', 'add_graph stamps and replaces; extract_graph copies node and edge data', floor=4)
     rep.rule('R5', 'JSON writer/reader are a matched pair', floor=1)
     rep.rule('R6', 'identity properties are stamped at creation', floor=4)
+    rep.rule('R7', 'sentinel values the library writes into JSON properties are skipped by graph validation', floor=2)
 
     nxi = prog.cls(NXI)
     imod = nxi.module
@@ -83,40 +89,74 @@ def run(prog, rep):
 
     # ---- R2 ----
     gml = prog.cls(GML)
-    n2n = gml.methods.get('networkx_to_neo4j')
-    if n2n is None:
+    n2n_raw = gml.methods.get('networkx_to_neo4j')
+    if n2n_raw is None:
         raise AnalysisError('GraphML.networkx_to_neo4j vanished')
-    if 'GRAPHML' in branches:
-        btxt = ast.unparse(branches['GRAPHML'].body)
-        rep.instance('R2', 'serialize_graph[GRAPHML] passes through GraphML.networkx_to_neo4j')
-        rv = [n for n in walk_no_nested(sg) if isinstance(n, ast.Return) and isinstance(n.value, ast.Name)]
-        rvar = rv[-1].value.id if rv else None
-        gbody = [x for st in branches['GRAPHML'].body for x in ast.walk(st)]
-        assigns = [n for n in gbody if isinstance(n, ast.Assign) and any(isinstance(t, ast.Name) and t.id == rvar for t in n.targets)]
-        last = assigns[-1] if assigns else None
-        ok = last is not None and isinstance(last.value, ast.Call) and call_name(last.value) == 'networkx_to_neo4j' \
-            and last.value.args and isinstance(last.value.args[0], ast.Name) and \
-            (last.value.args[0].id == rvar or any(isinstance(a, ast.Assign) and any(isinstance(t, ast.Name) and t.id == last.value.args[0].id for t in a.targets)
-                                                  and 'generate_graphml' in ast.unparse(a.value) for a in gbody))
-        if not ok:
-            rep.violation('R2', loc(nxpg.module, branches['GRAPHML']), 'NetworkXPropertyGraph.serialize_graph', 'GraphML text not passed through the label markup',
+    n2n = inline(prog, gml, n2n_raw)
+    is_src = lambda c: call_name(c) in ('generate_graphml',)
+    is_san = lambda c: call_name(c) == 'networkx_to_neo4j'
+    # every GraphML text serialize_graph returns went through the label markup (value flow on the CFG)
+    sgi = inline(prog, nxpg, sg)
+    res, _ = flow.taint(sgi, is_src, is_san)
+    n_clean = 0
+    for ret, verdict, wit in res:
+        if verdict == 'none':
+            continue
+        rep.instance('R2', f'serialize_graph: {norm(ret, 80)} returns GraphML text that is {verdict}')
+        if verdict == 'raw':
+            rep.violation('R2', loc(nxpg.module, ret), 'NetworkXPropertyGraph.serialize_graph', 'GraphML text not passed through the label markup',
                           'the GraphML string returned must be the result of GraphML.networkx_to_neo4j; without it the Neo4j '
-                          'importer sees no labels')
-    w = gml.methods.get('nx_write_graphml')
-    wtxt = ast.unparse(w)
-    rep.instance('R2', 'nx_write_graphml passes through networkx_to_neo4j')
-    conv = [n for n in walk_no_nested(w) if isinstance(n, ast.Assign) and isinstance(n.value, ast.Call) and call_name(n.value) == 'networkx_to_neo4j']
-    writes = [c for c in walk_no_nested(w) if isinstance(c, ast.Call) and call_name(c) == 'write']
-    if not conv or not writes or ast.unparse(writes[0].args[0]) != ast.unparse(conv[0].targets[0]) or conv[0].lineno > writes[0].lineno:
+                          'importer sees no labels', witness=wit)
+        else:
+            n_clean += 1
+    if 'GRAPHML' in branches and n_clean == 0 and not any(v == 'raw' for _, v, _ in res):
+        rep.violation('R2', loc(nxpg.module, branches['GRAPHML']), 'NetworkXPropertyGraph.serialize_graph', 'GraphML text not passed through the label markup',
+                      'the GRAPHML branch does not return text produced by generate_graphml and marked up by GraphML.networkx_to_neo4j')
+    w = inline(prog, gml, gml.methods.get('nx_write_graphml'))
+    res, _ = flow.taint(w, is_src, is_san, is_sink=lambda c: call_name(c) in ('write', 'writelines'))
+    sinks = [(c, v, wit) for c, v, wit in res if isinstance(c, ast.Call)]
+    rep.instance('R2', f'nx_write_graphml: written text is {[v for _, v, _ in sinks]}')
+    gen = [c for c in ast.walk(w) if isinstance(c, ast.Call) and is_src(c)]
+    san = [c for c in ast.walk(w) if isinstance(c, ast.Call) and is_san(c)]
+    if not sinks or not gen or not san or any(v == 'raw' for _, v, _ in sinks):
         rep.violation('R2', loc(gml.module, w), 'GraphML.nx_write_graphml', 'written text is not the marked-up text', 'the file written must carry the label markup')
-    loops = [n for n in n2n.body if isinstance(n, ast.For)]
+    loops = []
+    for l in walk_no_nested(n2n):
+        if isinstance(l, ast.For) and isinstance(l.iter, ast.Call) and call_name(l.iter) in ('findall', 'iterfind', 'iter') and isinstance(l.target, ast.Name):
+            consts = [c.value for a in l.iter.args for c in ast.walk(a) if isinstance(c, ast.Constant) and isinstance(c.value, str)]
+            kind = 'edge' if any(x.rstrip('/').endswith('g:edge') or x.rstrip('/').endswith('}edge') for x in consts) else \
+                ('node' if any(x.rstrip('/').endswith('g:node') or x.rstrip('/').endswith('}node') for x in consts) else None)
+            if kind:
+                loops.append((kind, l))
     marked = {}
-    for l in loops:
-        it = ast.unparse(l.iter)
-        kind = 'edge' if 'g:edge' in it else ('node' if 'g:node' in it else None)
-        sets = [c for c in ast.walk(l) if isinstance(c, ast.Call) and call_name(c) == 'set' and c.args and isinstance(c.args[0], ast.Constant)]
-        if kind and sets:
+    for kind, l in loops:
+        sets = [c for c in ast.walk(l) if isinstance(c, ast.Call) and call_name(c) == 'set' and c.args and isinstance(c.args[0], ast.Constant)
+                and receiver_name(c) == l.target.id]
+        if sets:
             marked[kind] = (l, sets[0])
+
+    def only_if_absent(test, var, attr):
+        """test == "the element `var` has no attribute `attr` yet" in one of its spellings"""
+        t = canon(test)
+        if isinstance(t, ast.UnaryOp) and isinstance(t.op, ast.Not):
+            o = t.operand
+            if isinstance(o, ast.Call) and call_name(o) == 'get' and o.args and isinstance(o.args[0], ast.Constant) and o.args[0].value == attr:
+                r = attr_chain(o.func.value)
+                return bool(r) and r[0] == var and r[1:] in ([], ['attrib'])
+            if isinstance(o, ast.Subscript):
+                return False
+        if isinstance(t, ast.Compare) and len(t.ops) == 1 and isinstance(t.ops[0], ast.NotIn) and isinstance(t.left, ast.Constant) and t.left.value == attr:
+            r = attr_chain(t.comparators[0])
+            return bool(r) and r[0] == var and r[1:] in ([], ['attrib'])
+        if isinstance(t, ast.Compare) and len(t.ops) == 1 and isinstance(t.ops[0], (ast.Is, ast.Eq)) and isinstance(t.comparators[0], ast.Constant) \
+                and t.comparators[0].value is None and isinstance(t.left, ast.Call) and call_name(t.left) == 'get' and t.left.args and \
+                isinstance(t.left.args[0], ast.Constant) and t.left.args[0].value == attr:
+            r = attr_chain(t.left.func.value)
+            return bool(r) and r[0] == var
+        return False
+
+    n2n_cfg = CFG(n2n)
+    n2n_dom = n2n_cfg.dominators()
     for kind, attr in (('edge', 'label'), ('node', 'labels')):
         rep.instance('R2', f'networkx_to_neo4j: {kind} loop sets {attr!r}: {kind in marked}')
         if kind not in marked:
@@ -127,39 +167,45 @@ def run(prog, rep):
         if st.args[0].value != attr:
             rep.violation('R2', loc(gml.module, st), 'GraphML.networkx_to_neo4j', norm(st), f'{kind}s must be marked with the {attr!r} attribute')
         # the set is only skipped when the attribute is already present
-        p = st
-        conds = []
-        while p is not l:
-            p = p._parent
-            if isinstance(p, ast.If):
-                conds.append(ast.unparse(p.test))
-        okc = all(f"attrib.get('{attr}')" in c and c.startswith('not ') for c in conds)
-        if not okc:
-            rep.violation('R2', loc(gml.module, st), 'GraphML.networkx_to_neo4j', f'{kind} markup conditional on {conds}',
+        gens_, conds = _enclosing(st, l)
+        bad = [c for c in conds for cj in conjuncts(canon(c)) if not only_if_absent(cj, l.target.id, st.args[0].value)]
+        if bad:
+            rep.violation('R2', loc(gml.module, st), 'GraphML.networkx_to_neo4j', f'{kind} markup conditional on {[norm(c, 60) for c in bad]}',
                           f'the {attr} attribute is only added under a condition other than "not already present"')
         # no way to leave the loop early
         for x in ast.walk(l):
-            if isinstance(x, (ast.Break, ast.Return, ast.Continue)):
+            if isinstance(x, (ast.Break, ast.Return)):
                 rep.violation('R2', loc(gml.module, x), 'GraphML.networkx_to_neo4j', f'{kind} loop: {norm(x)}', f'some {kind}s are skipped by the markup')
-    # nothing returns before the loops
+            if isinstance(x, ast.Continue):
+                # a guard-clause `if <already present>: continue` is the same as the positive test; anything else skips elements
+                p = x._parent
+                if not (isinstance(p, ast.If) and only_if_absent(negate(p.test), l.target.id, st.args[0].value)):
+                    rep.violation('R2', loc(gml.module, x), 'GraphML.networkx_to_neo4j', f'{kind} loop: {norm(x)}', f'some {kind}s are skipped by the markup')
+    # nothing returns normally before both loops have run (dominance on the CFG)
     rets = [n for n in walk_no_nested(n2n) if isinstance(n, ast.Return)]
-    last_loop = max((l.lineno for l in loops), default=0)
     for r in rets:
-        rep.instance('R2', f'networkx_to_neo4j: return at line {r.lineno} (loops end after line {last_loop})')
-        if r.lineno < last_loop:
+        rn = flow.node_of(n2n_cfg, r)
+        if rn is None or rn.id not in n2n_dom:
+            continue
+        missing = [kind for kind, (l, st) in marked.items() if not any(nd.ast is l and nd.kind == 'test' and nd.id in n2n_dom[rn.id] for nd in n2n_cfg.nodes)]
+        rep.instance('R2', f'networkx_to_neo4j: return at line {r.lineno}: both markup loops lie on every path to it: {not missing}')
+        if missing:
             rep.violation('R2', loc(gml.module, r), 'GraphML.networkx_to_neo4j', f'early return: {norm(r)}',
                           'the markup returns before labelling nodes and edges on some inputs (e.g. a graph without edges declares '
                           'no edge Class key): the text then carries no labels at all')
-    final = rets[-1] if rets else None
     tree_vars = [n.targets[0].id for n in walk_no_nested(n2n) if isinstance(n, ast.Assign) and isinstance(n.value, ast.Call) and call_name(n.value) in ('fromstring', 'parse', 'XML')
                  and isinstance(n.targets[0], ast.Name)]
-    if final is None or not any(isinstance(c, ast.Call) and call_name(c) == 'tostring' and c.args and isinstance(c.args[0], ast.Name) and c.args[0].id in tree_vars
-                               for c in ast.walk(final)):
+    env2 = local_env(n2n)
+    def is_tree(e):
+        e = expand(e, env2)
+        return (isinstance(e, ast.Name) and e.id in tree_vars) or (isinstance(e, ast.Call) and call_name(e) in ('fromstring', 'parse', 'XML'))
+    if not rets or not all(any(isinstance(c, ast.Call) and call_name(c) == 'tostring' and c.args and is_tree(c.args[0])
+                               for c in ast.walk(expand(r.value, {k: v for k, v in env2.items() if k not in tree_vars}))) for r in rets if r.value is not None):
         rep.violation('R2', loc(gml.module, n2n), 'GraphML.networkx_to_neo4j', 'result is not the modified tree', 'the marked-up tree must be returned')
     # class key lookup for both scopes
-    ktxt = ast.unparse(n2n)
+    cmp_consts = {c.value for n in walk_no_nested(n2n) if isinstance(n, ast.Compare) for c in [n.left] + n.comparators if isinstance(c, ast.Constant)}
     for scope in ('edge', 'node'):
-        if f"== '{scope}'" not in ktxt:
+        if scope not in cmp_consts:
             rep.violation('R2', loc(gml.module, n2n), 'GraphML.networkx_to_neo4j', f'Class key of {scope}s not looked up', f'{scope} labels cannot be derived')
 
     # ---- R3 ----
@@ -169,13 +215,15 @@ def run(prog, rep):
         'import_graph_from_file_direct': ('add_graph_direct', 'get_graph_id'),
     }
     for name, (store_call, idsrc) in entry.items():
-        fn = nxi.methods.get(name)
-        if fn is None:
+        fn0 = nxi.methods.get(name)
+        if fn0 is None:
             raise AnalysisError(f'NetworkXGraphImporter.{name} vanished')
+        fn = inline(prog, nxi, fn0)
+        env = local_env(fn)
         fq = f'NetworkXGraphImporter.{name}'
         reads = [c for c in walk_no_nested(fn) if isinstance(c, ast.Call) and call_name(c) == '_read_from_file']
         inserts = [c for c in walk_no_nested(fn) if isinstance(c, ast.Call) and call_name(c) in ('add_graph', 'add_graph_direct')]
-        handles = [c for c in walk_no_nested(fn) if isinstance(c, ast.Call) and ast.unparse(c.func) == 'self.graph_class']
+        handles = [c for c in walk_no_nested(fn) if isinstance(c, ast.Call) and ctext(c.func, env) == 'self.graph_class']
         rep.instance('R3', f'{fq}: read={len(reads)} insert={[call_name(c) for c in inserts]} handle={len(handles)}')
         if not reads or not inserts or not handles:
             rep.violation('R3', loc(imod, fn), fq, 'does not read, insert and build a handle', 'an import must read the text, insert the graph and return a handle')
@@ -185,44 +233,54 @@ def run(prog, rep):
                           f'{name} must insert with {store_call} ({"re-stamping the graph id" if store_call == "add_graph" else "keeping ids untouched"})')
         ins_id = kwarg(inserts[0], 'graph_id') or (inserts[0].args[0] if inserts[0].args else None)
         ins_g = kwarg(inserts[0], 'graph') or (inserts[0].args[1] if len(inserts[0].args) > 1 else None)
-        h_id = kwarg(handles[0], 'graph_id')
-        if ins_id is None or h_id is None or ast.unparse(ins_id) != ast.unparse(h_id):
+        h_id = kwarg(handles[0], 'graph_id') or (handles[0].args[0] if handles[0].args else None)
+        if ins_id is None or h_id is None or ctext(ins_id, env) != ctext(h_id, env):
             rep.violation('R3', loc(imod, handles[0]), fq, f'store id {norm(ins_id) if ins_id is not None else None} vs handle id {norm(h_id) if h_id is not None else None}',
                           'the handle returned addresses another graph id than the one the graph was stored under')
-        rd_var = None
-        for n in walk_no_nested(fn):
-            if isinstance(n, ast.Assign) and n.value is reads[0]:
-                rd_var = n.targets[0].id
-        if ins_g is None or rd_var is None or ast.unparse(ins_g) != rd_var:
+
+        def derives_from(e, cname):
+            if e is None:
+                return False
+            if any(isinstance(c, ast.Call) and call_name(c) == cname for c in ast.walk(e)):
+                return True
+            if isinstance(e, ast.Name):
+                return any(any(isinstance(c, ast.Call) and call_name(c) == cname for c in ast.walk(v)) for v in flow.reaching_values(fn, e.id))
+            return False
+        if not derives_from(ins_g, '_read_from_file'):
             rep.violation('R3', loc(imod, inserts[0]), fq, 'inserted graph is not the graph just read', 'the graph stored must be the one read from the text')
         if idsrc == 'get_graph_id':
-            src = [n for n in walk_no_nested(fn) if isinstance(n, ast.Assign) and isinstance(n.value, ast.Call) and call_name(n.value) == 'get_graph_id']
-            if not src or ast.unparse(src[0].targets[0]) != ast.unparse(ins_id):
+            if not derives_from(ins_id, 'get_graph_id'):
                 rep.violation('R3', loc(imod, fn), fq, 'graph id not taken from get_graph_id', 'a direct import must use the GraphID carried by the text')
     # text handed over through a temporary file: written and flushed before it is read, read while the file still exists
     for name in ('import_graph_from_string', 'import_graph_from_string_direct'):
-        fn = nxi.methods[name]
+        fn = inline(prog, nxi, nxi.methods[name])
         fq = f'NetworkXGraphImporter.{name}'
-        withs = [w for w in walk_no_nested(fn) if isinstance(w, ast.With) and 'NamedTemporaryFile' in ast.unparse(w.items[0].context_expr)]
-        if len(withs) != 1:
+        withs = [w for w in walk_no_nested(fn) if isinstance(w, ast.With) and any(isinstance(c, ast.Call) and call_name(c) == 'NamedTemporaryFile'
+                                                                                  for c in ast.walk(w.items[0].context_expr))]
+        if len(withs) != 1 or not isinstance(withs[0].items[0].optional_vars, ast.Name):
             raise AnalysisError(f'{fq}: temporary file block not found')
         w = withs[0]
-        fvar = ast.unparse(w.items[0].optional_vars)
-        wr = [c for c in ast.walk(w) if isinstance(c, ast.Call) and call_name(c) == 'write' and ast.unparse(c.func.value) == fvar]
-        fl = [c for c in ast.walk(w) if isinstance(c, ast.Call) and call_name(c) in ('flush', 'close') and ast.unparse(c.func.value) == fvar]
+        fvar = w.items[0].optional_vars.id
+        wr = [c for c in ast.walk(w) if isinstance(c, ast.Call) and call_name(c) == 'write' and receiver_name(c) == fvar]
+        fl = [c for c in ast.walk(w) if isinstance(c, ast.Call) and call_name(c) in ('flush', 'close') and receiver_name(c) == fvar]
         rd = [c for c in walk_no_nested(fn) if isinstance(c, ast.Call) and call_name(c) in ('_read_from_file', 'get_graph_id')]
         rep.instance('R3', f'{fq}: write@{wr[0].lineno if wr else None} flush@{fl[0].lineno if fl else None} reads@{[c.lineno for c in rd]}')
         inside = all(any(x is c for x in ast.walk(w)) for c in rd)
-        ok = bool(wr) and bool(fl) and bool(rd) and wr[0].lineno < fl[0].lineno < min(c.lineno for c in rd) and inside \
-            and isinstance(wr[0].args[0], ast.Name) and wr[0].args[0].id in [a.arg for a in fn.args.kwonlyargs + fn.args.args]
+        fcfg = CFG(fn)
+        fdom = fcfg.dominators()
+        params = set(func_params(fn))
+        ok = bool(wr) and bool(fl) and bool(rd) and inside and flow.dominates(fcfg, wr[0], fl[0], fdom) and \
+            all(flow.dominates(fcfg, fl[0], c, fdom) for c in rd) and \
+            any(isinstance(n, ast.Name) and n.id in params for n in ast.walk(expand(wr[0].args[0], local_env(fn)))) if wr and wr[0].args else False
         if not ok:
             rep.violation('R3', loc(imod, w), fq, 'temporary file not written+flushed before, or not alive while, it is read',
                           'the serialized text reaches the reader through a temporary file: it must be written and flushed before '
                           'the reader opens it by name, and the reader must run inside the with block (the file is deleted on exit); '
                           'otherwise the import sees an empty or missing file')
+        env = local_env(fn)
         for c in rd:
-            a0 = c.args[0] if c.args else kwarg(c, 'graph_file')
-            if a0 is None or ast.unparse(a0) != f'{fvar}.name':
+            a0 = c.args[0] if c.args else (kwarg(c, 'graph_file') or (c.keywords[0].value if c.keywords else None))
+            if a0 is None or ctext(a0, env) != f'{fvar}.name':
                 rep.violation('R3', loc(imod, c), fq, norm(c, 90), 'the reader must be given the name of the temporary file that holds the text')
     abci = prog.cls(ABCI)
     ff = abci.methods.get('import_graph_from_file')
@@ -332,6 +390,95 @@ def run(prog, rep):
     rgc = [c for c in ast.walk(rg) if isinstance(c, ast.Call) and call_name(c) == 'read_graphml']
     if not rgc or not rgc[0].args or not isinstance(rgc[0].args[0], ast.Name) or rgc[0].args[0].id not in [a.arg for a in rg.args.args]:
         rep.violation('R5', loc(imod, rg), 'NetworkXGraphImporter._read_from_file_graphml', 'GraphML reader', 'GraphML must be read with networkx read_graphml')
+
+    # GraphML writer options: the reader (read_graphml) is called with defaults, so the writer must not switch on options that
+    # change how keys / ids / types are encoded
+    UNSAFE_WRITER_OPTS = {'named_key_ids': 'node-scoped and edge-scoped keys of the same property name then share one key id and '
+                                           'the reader resolves both to a single declared type',
+                          'edge_id_from_attribute': 'edge ids are then taken from a property, colliding edge ids merge on import',
+                          'infer_numeric_types': 'mixed int/float values of one property are then written under one numeric type'}
+    for m in prog.modules.values():
+        for c in ast.walk(m.tree):
+            if isinstance(c, ast.Call) and call_name(c) in ('generate_graphml', 'write_graphml', 'write_graphml_lxml', 'write_graphml_xml'):
+                rep.instance('R5', f'{loc(m, c)}: {norm(c, 80)}')
+                for k in c.keywords:
+                    if k.arg in UNSAFE_WRITER_OPTS and not (isinstance(k.value, ast.Constant) and k.value.value in (False, None)):
+                        rep.violation('R5', loc(m, c), 'GraphML writer options', norm(c, 100),
+                                      f'the GraphML writer is called with {k.arg}={norm(k.value)}: {UNSAFE_WRITER_OPTS[k.arg]}; the '
+                                      f'typed round trip through read_graphml no longer returns the same values')
+
+    # ---- R7: values the library itself writes into JSON-typed properties pass validate_graph after a round trip ----
+    abcpg = prog.cls('fim.graph.abc_property_graph:ABCPropertyGraph')
+    vj0 = abcpg.find_method('_validate_json_property')[1]
+    if vj0 is None:
+        raise AnalysisError('_validate_json_property vanished')
+    vj = inline(prog, abcpg, vj0)
+    loads = [c for c in walk_no_nested(vj) if isinstance(c, ast.Call) and call_name(c) == 'loads']
+    if len(loads) != 1:
+        raise AnalysisError('_validate_json_property: json.loads call not found')
+    venv = local_env(vj)
+    subject = ctext(loads[0].args[0], venv)
+    _, vconds = _enclosing(loads[0], vj)
+    json_props = set(prog.class_const(abcpg, 'JSON_PROPERTY_NAMES'))
+    import json as _json
+
+    def rejected(value):
+        """True / False / None (cannot tell): would validation try to parse `value` and fail?"""
+        fold = lambda e: prog.const_eval(e, abcpg.module, abcpg)
+        try:
+            for c in vconds:
+                if not eval_test(canon(expand(c, venv)), {subject: value}, fold):
+                    return False
+        except Unknown:
+            return None
+        try:
+            _json.loads(value)
+            return False
+        except Exception:
+            return True
+
+    sentinels = []
+    for m in prog.modules.values():
+        for cls_ in prog._walk_classes(m):
+            for fn in cls_.methods.values():
+                for c in walk_no_nested(fn):
+                    if isinstance(c, ast.Call) and call_name(c) in ('update_node_property', 'update_nodes_property', 'update_link_property'):
+                        pv = kwarg(c, 'prop_val')
+                        pn = kwarg(c, 'prop_name')
+                        if isinstance(pv, ast.Constant) and isinstance(pv.value, str) and pn is not None:
+                            sentinels.append((m, cls_, fn, c, pn, pv.value))
+    for m, cls_, fn, c, pn, value in sentinels:
+        names = set()
+        cands = [pn]
+        if isinstance(pn, ast.Name):
+            # loop variable over a literal list / temporaries
+            cands = []
+            for l in walk_no_nested(fn):
+                if isinstance(l, ast.For) and isinstance(l.target, ast.Name) and l.target.id == pn.id and isinstance(l.iter, (ast.List, ast.Tuple)):
+                    cands.extend(l.iter.elts)
+            cands.extend(flow.reaching_values(fn, pn.id))
+        for e in cands:
+            try:
+                v = prog.const_eval(e, m, cls_)
+                if isinstance(v, str):
+                    names.add(v)
+            except Unfoldable:
+                pass
+        hit = sorted(names & json_props)
+        verdict = rejected(value)
+        rep.instance('R7', f'{loc(m, c)} {cls_.name}.{fn.name} writes {value!r} into {hit or sorted(names) or norm(pn)}: rejected by validation: {verdict}')
+        if hit and verdict:
+            rep.violation('R7', loc(m, c), f'{cls_.name}.{fn.name}', f'writes {value!r} into {hit}',
+                          f'the library stores {value!r} in JSON-typed propert{"ies" if len(hit) > 1 else "y"} {hit}, but _validate_json_property would try to '
+                          f'parse that value and fail: a model containing it serializes and imports, yet validate_graph() rejects '
+                          f'the imported graph')
+    for value in (None, prog.class_const(abcpg, 'NEO4j_NONE')):
+        verdict = rejected(value) if isinstance(value, str) else None
+        if isinstance(value, str):
+            rep.instance('R7', f'unset sentinel {value!r}: rejected by validation: {verdict}')
+            if verdict:
+                rep.violation('R7', loc(abcpg.module, vj0), 'ABCPropertyGraph._validate_json_property', f'sentinel {value!r} rejected',
+                              f'{value!r} is how an unset property reads back from Neo4j; validation must skip it')
 
     # ---- R6 ----
     an = nxpg.methods.get('add_node')
